@@ -530,6 +530,236 @@ fn exec_docs_case(ops: &[String], run: &mut Run) {
     }
 }
 
+
+// ---------------------------------------------------------------------------------- c39_sweep
+
+/// One numeric (or number-like) field of the configuration grammar: (id, model kind, valid value, document
+/// with `@@` where the value goes; everything else in the document is valid).
+/// model kind: "interval" (csptp poll/response interval), "positive" (sock / pps precision …), "domain",
+/// "thr" (StepThreshold), "accum" (accumulated threshold), "" (serde / toml decide: not modelled)
+fn sweep_fields() -> &'static Vec<(String, &'static str, &'static str, String)> {
+    static F: std::sync::OnceLock<Vec<(String, &'static str, &'static str, String)>> = std::sync::OnceLock::new();
+    F.get_or_init(|| {
+        let mut v: Vec<(String, &'static str, &'static str, String)> = vec![];
+        let mut add = |id: &str, kind: &'static str, valid: &'static str, doc: &str| v.push((id.to_string(), kind, valid, doc.to_string()));
+        let src = |mode: &str, extra: &str| format!("[[source]]\nmode = \"{}\"\n{}", mode, extra);
+        // ---- sources: every mode, every numeric field
+        for (mode, addr) in [("server", "address = \"a.test:123\"\n"), ("pool", "address = \"p.test\"\n"), ("nts", "address = \"n.test:4460\"\n"), ("nts-pool", "address = \"q.test\"\n")] {
+            add(&format!("{}.ntp-version", mode), "", "i:4", &src(mode, &format!("{}ntp-version = @@\n", addr)));
+            if mode == "pool" || mode == "nts-pool" {
+                add(&format!("{}.count", mode), "", "i:4", &src(mode, &format!("{}count = @@\n", addr)));
+            }
+        }
+        for (f, valid) in [("precision", "f:3f50624dd2f1a9fc"), ("accuracy", "f:3f50624dd2f1a9fc"), ("measurement_noise_estimate", "f:3f50624dd2f1a9fc")] {
+            let base = if f == "precision" || f == "measurement_noise_estimate" { String::new() } else { "precision = 0.001\n".to_string() };
+            add(&format!("sock.{}", f), "positive", valid, &src("sock", &format!("path = \"/verif/sock\"\n{}{} = @@\n", base, f)));
+        }
+        for (f, valid) in [("precision", "f:3f50624dd2f1a9fc"), ("accuracy", "f:3f50624dd2f1a9fc"), ("measurement_noise_estimate", "f:3f50624dd2f1a9fc"), ("period", "f:3ff0000000000000")] {
+            let base = if f == "precision" || f == "measurement_noise_estimate" { String::new() } else { "precision = 0.001\n".to_string() };
+            add(&format!("pps.{}", f), "positive", valid, &src("pps", &format!("path = \"/verif/pps\"\n{}{} = @@\n", base, f)));
+        }
+        add("csptp.domain", "domain", "i:128", &src("csptp", "address = \"c.test\"\ndomain = @@\n"));
+        add("csptp.poll_interval", "interval", "f:3ff0000000000000", &src("csptp", "address = \"c.test\"\npoll_interval = @@\n"));
+        add("csptp.response_interval", "interval", "f:4014000000000000", &src("csptp", "address = \"c.test\"\nresponse_interval = @@\n"));
+        // ---- [[server]], [[nts-ke-server]]
+        for (f, valid) in [("rate-limiting-cache-size", "i:32"), ("rate-limiting-cutoff-ms", "i:1000")] {
+            add(&format!("server.{}", f), "", valid, &format!("[[server]]\nlisten = \"127.0.0.1:123\"\n{} = @@\n", f));
+        }
+        add("server.accept-ntp-versions", "", "i:4", "[[server]]\nlisten = \"127.0.0.1:123\"\naccept-ntp-versions = [@@]\n");
+        for (f, valid) in [("key-exchange-timeout-ms", "i:1000"), ("concurrent-connections", "i:512"), ("longlived-connections", "i:5"), ("ntp-port", "i:123")] {
+            add(&format!("nts-ke-server.{}", f), "", valid, &format!("[[server]]\nlisten = \"127.0.0.1:123\"\n\n[[nts-ke-server]]\nlisten = \"127.0.0.1:4460\"\ncertificate-chain-path = \"/verif/c.pem\"\nprivate-key-path = \"/verif/k.pem\"\n{} = @@\n", f));
+        }
+        add("nts-ke-server.accept-ntp-versions", "", "i:4", "[[server]]\nlisten = \"127.0.0.1:123\"\n\n[[nts-ke-server]]\nlisten = \"127.0.0.1:4460\"\ncertificate-chain-path = \"/verif/c.pem\"\nprivate-key-path = \"/verif/k.pem\"\naccept-ntp-versions = [@@]\n");
+        // ---- [observability], [keyset], [csptp], [source-defaults]
+        add("observability.observation-permissions", "", "i:438", "[observability]\nobservation-permissions = @@\n");
+        add("observability.ansi-colors", "", "b", "[observability]\nansi-colors = @@\n");
+        add("keyset.stale-key-count", "", "i:7", "[keyset]\nstale-key-count = @@\n");
+        add("keyset.key-rotation-interval", "", "i:86400", "[keyset]\nkey-rotation-interval = @@\n");
+        add("csptp-section.priority-1", "", "i:128", "[csptp]\npriority-1 = @@\n");
+        add("csptp-section.priority-2", "", "i:128", "[csptp]\npriority-2 = @@\n");
+        add("source-defaults.poll-interval-limits.min", "", "i:4", "[source-defaults]\npoll-interval-limits = { min = @@, max = 10 }\n");
+        add("source-defaults.poll-interval-limits.max", "", "i:10", "[source-defaults]\npoll-interval-limits = { min = 4, max = @@ }\n");
+        add("source-defaults.initial-poll-interval", "", "i:4", "[source-defaults]\ninitial-poll-interval = @@\n");
+        // ---- [synchronization] incl. the algorithm parameters
+        add("synchronization.minimum-agreeing-sources", "", "i:3", "[synchronization]\nminimum-agreeing-sources = @@\n");
+        add("synchronization.local-stratum", "", "i:16", "[synchronization]\nlocal-stratum = @@\n");
+        add("synchronization.single-step-panic-threshold", "thr", "f:408f400000000000", "[synchronization]\nsingle-step-panic-threshold = @@\n");
+        add("synchronization.startup-step-panic-threshold", "thr", "f:408f400000000000", "[synchronization]\nstartup-step-panic-threshold = @@\n");
+        add("synchronization.single-step-panic-threshold.forward", "part", "f:408f400000000000", "[synchronization]\nsingle-step-panic-threshold = { forward = @@, backward = 5.0 }\n");
+        add("synchronization.startup-step-panic-threshold.backward", "part", "f:408f400000000000", "[synchronization]\nstartup-step-panic-threshold = { backward = @@ }\n");
+        add("synchronization.accumulated-step-panic-threshold", "accum", "f:409c200000000000", "[synchronization]\naccumulated-step-panic-threshold = @@\n");
+        add("synchronization.reference-id", "", "s:475053", "[synchronization]\nreference-id = @@\n");
+        for f in ["precision-low-probability", "precision-high-probability", "precision-minimum-weight", "poll-interval-low-weight", "poll-interval-high-weight", "poll-interval-step-threshold", "delay-outlier-threshold", "initial-wander", "initial-frequency-uncertainty", "maximum-source-uncertainty", "range-statistical-weight", "range-delay-weight", "steer-offset-threshold", "steer-offset-leftover", "steer-frequency-threshold", "steer-frequency-leftover", "step-threshold", "slew-maximum-frequency-offset", "slew-minimum-duration", "maximum-frequency-steer", "meddling-threshold"] {
+            add(&format!("synchronization.algorithm.{}", f), "", "f:3fb999999999999a", &format!("[synchronization.algorithm]\n{} = @@\n", f));
+        }
+        for f in ["precision-hysteresis", "poll-interval-hysteresis"] {
+            add(&format!("synchronization.algorithm.{}", f), "", "i:16", &format!("[synchronization.algorithm]\n{} = @@\n", f));
+        }
+        v
+    })
+}
+
+/// the extreme values every field is set to in turn (scalar syntax of this harness)
+const EXTREMES: &[&str] = &[
+    "f:7ff8000000000000", // nan
+    "f:7ff0000000000000", // +inf
+    "f:fff0000000000000", // -inf
+    "i:-1",
+    "f:bff0000000000000", // -1.0
+    "f:8000000000000000", // -0.0
+    "i:0",
+    "f:0000000000000000", // 0.0
+    "f:01a56e1fc2f8f359", // 1e-300
+    "f:0000000000000001", // smallest subnormal
+    "f:43e158e460913d00", // 1e19
+    "f:43ef3931e7c10000", // 1.8e19
+    "f:43efffffffffffff", // largest double below 2^64
+    "f:43f0000000000000", // 2^64
+    "f:4415af1d78b58c40", // 1e20
+    "f:7e37e43c8800759c", // 1e300
+    "f:7fefffffffffffff", // f64::MAX
+    "i:9223372036854775807",
+    "i:-9223372036854775808",
+    "u:18446744073709551615", // above every TOML integer
+    "i:127",
+    "i:128",
+    "i:239",
+    "i:240",
+    "i:255",
+    "i:256",
+    "i:65535",
+    "i:65536",
+    "i:4294967296",
+    "s:696e66",   // "inf"
+    "s:737472",   // "str"
+    "s:",         // ""
+    "m",          // {}
+    "t:a=i:1",    // { a = 1 }
+    "a",          // []
+    "b",          // true
+];
+
+/// scalar syntax of the sweep: the c39_cfg syntax plus `u:<dec>` (bare big integer) and `a` (empty array)
+fn sweep_toml(s: &str) -> Option<String> {
+    if s == "a" {
+        return Some("[]".to_string());
+    }
+    if let Some(r) = s.strip_prefix("u:") {
+        return if !r.is_empty() && r.chars().all(|c| c.is_ascii_digit()) { Some(r.to_string()) } else { None };
+    }
+    if s == "s:" {
+        return Some("\"\"".to_string());
+    }
+    toml_value(s)
+}
+
+fn sweep_doc(field: &str, values: &[(String, String)]) -> Option<(String, &'static str)> {
+    // `values`: (field id, scalar) pairs; the first decides the model kind; further pairs are appended documents
+    let fields = sweep_fields();
+    let mut text = String::new();
+    let mut kind = "";
+    for (i, (fid, val)) in values.iter().enumerate() {
+        let (_, k, _, doc) = fields.iter().find(|(id, _, _, _)| id == fid)?;
+        if i == 0 {
+            kind = *k;
+        }
+        // array / table headers of later fragments may repeat: TOML allows repeated [[x]] but not repeated [x];
+        // a repeated table is a parse error, which is a legitimate (rejected) document
+        text.push_str(&doc.replace("@@", &sweep_toml(val)?));
+        text.push('\n');
+    }
+    let _ = field;
+    Some((text, kind))
+}
+
+fn gen_sweep_case(rng: &mut Rng, idx: u64, _run: &Run) -> Vec<String> {
+    let fields = sweep_fields();
+    let nf = fields.len() as u64;
+    let ne = EXTREMES.len() as u64;
+    // always-run corpus: every template with its valid value, then every field x every extreme
+    if idx < nf {
+        let (id, _, valid, _) = &fields[idx as usize];
+        return vec![format!("sweep {}={}", id, valid)];
+    }
+    let k = idx - nf;
+    if k < nf * ne {
+        let (id, _, _, _) = &fields[(k / ne) as usize];
+        return vec![format!("sweep {}={}", id, EXTREMES[(k % ne) as usize])];
+    }
+    // then: random numbers in every field, and two extremes in one document
+    let (id, _, _, _) = rng.pick(fields);
+    let val = match rng.below(6) {
+        0 => rng.pick(EXTREMES).to_string(),
+        1 => format!("i:{}", rng.next_u64() as i64 >> rng.below(64)),
+        2 => format!("f:{:016x}", { let f = f64::from_bits(rng.next_u64()); if f.is_nan() { f64::NAN.to_bits() } else { f.to_bits() } }),
+        3 => format!("f:{:016x}", (rng.f64_unit() * (2.0f64).powi(rng.range(50, 80) as i32)).to_bits()),
+        4 => format!("f:{:016x}", (-(rng.f64_unit()) * (2.0f64).powi(rng.range(-70, 70) as i32)).to_bits()),
+        _ => format!("f:{:016x}", (rng.f64_unit() * (2.0f64).powi(rng.range(-1080, 64) as i32)).to_bits()),
+    };
+    if rng.chance(1, 4) {
+        let (id2, _, _, _) = rng.pick(fields);
+        return vec![format!("sweep {}={} {}={}", id, val, id2, rng.pick(EXTREMES))];
+    }
+    vec![format!("sweep {}={}", id, val)]
+}
+
+fn exec_sweep_case(ops: &[String], run: &mut Run) {
+    for op in ops {
+        run.begin_op(op);
+        let w: Vec<&str> = op.split_whitespace().collect();
+        if w.first() != Some(&"sweep") || w.len() < 2 {
+            run.end_op("bad-op");
+            continue;
+        }
+        let mut values = vec![];
+        for part in &w[1..] {
+            match part.split_once('=') {
+                Some((f, v)) => values.push((f.to_string(), v.to_string())),
+                None => values.clear(),
+            }
+        }
+        let Some((text, kind)) = (if values.is_empty() { None } else { sweep_doc(&values[0].0, &values) }) else {
+            run.end_op("bad-op");
+            continue;
+        };
+        let single = values.len() == 1;
+        let is_valid_template = single && sweep_fields().iter().any(|(id, _, valid, _)| *id == values[0].0 && *valid == values[0].1);
+        // the direct oracle: loading returns Ok or Err, it never panics (so the report carries the TOML text)
+        let res = std::panic::catch_unwind(|| {
+            toml::from_str::<Config>(&text).map(|cfg| {
+                let ok = cfg.check();
+                (cfg, ok)
+            })
+        });
+        match res {
+            Err(p) => {
+                let msg = p.downcast_ref::<String>().cloned().or_else(|| p.downcast_ref::<&str>().map(|s| s.to_string())).unwrap_or_default();
+                run.oracle_fail(
+                    "load_never_panics",
+                    &format!("field={}", values[0].0),
+                    &format!("loading this configuration panicked ({}): {}", msg, text.replace('\n', "\\n")),
+                );
+                run.hit("PANIC");
+                run.end_op("panic");
+            }
+            Ok(Err(e)) => {
+                if is_valid_template {
+                    run.oracle_fail("template_valid", &format!("field={}", values[0].0), &format!("the all-valid document of this field is rejected ({}): {}", e.to_string().replace('\n', " "), text.replace('\n', "\\n")));
+                }
+                run.hit(&format!("{}-rejected", if kind.is_empty() { "unmodelled" } else { kind }));
+                // fields whose validation is the repository's own decision logic are compared with the model
+                run.end_op(if single && !kind.is_empty() { "err" } else { "-" });
+            }
+            Ok(Ok((cfg, _ok))) => {
+                threshold_oracle(&cfg, run);
+                run.hit(&format!("{}-loaded", if kind.is_empty() { "unmodelled" } else { kind }));
+                run.nontrivial(&format!("{}|{}", values[0].0, values[0].1));
+                run.end_op(if single && !kind.is_empty() { "ok" } else { "-" });
+            }
+        }
+    }
+}
+
 #[test]
 fn entry() {
     let stream = std::env::var("VERIF_STREAM").unwrap_or_default();
@@ -539,6 +769,12 @@ fn entry() {
             "daemon configurations rendered to TOML and loaded with toml::from_str::<Config> + Config::check(): single/startup step thresholds absent | number | string | bool | table with forward/backward/misspelt keys (values: NaN, +-inf, negatives, -0, subnormal, 1e300, i32/i64 limits, 'inf' and near misses), accumulated threshold, minimum-agreeing-sources (incl. -1, i64::MAX), 0-5 sources (server, nts, sock, pool / nts-pool with counts 0..6, -1, 2^62, i64::MAX-1, i64::MAX); non-trivial = configuration loaded; distinct by (shape, count, verdict)",
             gen_cfg_case,
             exec_cfg_case,
+        ),
+        "c39_sweep" => common::drive(
+            "c39_sweep",
+            "every numeric / number-like field of every source mode (server, pool, nts, nts-pool, sock, pps, csptp) and of the [[server]], [[nts-ke-server]], [observability], [keyset], [csptp], [source-defaults], [synchronization] and [synchronization.algorithm] sections: first the all-valid document of each field, then each field set in turn to each of 36 extremes (nan, +-inf, -1, -0.0, 0, 1e-300, subnormal, 1e19, 1.8e19, 2^64 and its predecessor, 1e20, 1e300, f64::MAX, i64 limits, u64::MAX, 255/256/65535/65536/2^32, strings, tables, array, bool) with the rest of the document valid, then random numbers per field and pairs of extremes; direct oracle: toml::from_str::<Config> + check() return, never panic (catch_unwind, report carries the TOML text); fields validated by the repository's own code (csptp intervals and domain, sock/pps positives, thresholds) are compared with the model; non-trivial = loaded; distinct by (field, value)",
+            gen_sweep_case,
+            exec_sweep_case,
         ),
         "c39_docs" => common::drive(
             "c39_docs",
